@@ -208,7 +208,7 @@ type HarnessResult struct {
 func (g *Engine) newExec(s *Solver, cfg *HarnessCfg, prefix []uint64) *Exec {
 	return &Exec{eng: g, tb: NewTB(), solver: s, cfg: cfg, prefix: prefix,
 		reached: map[string]bool{}, globals: map[*ssa.Global]*Loc{}, initDone: map[*ssa.Package]bool{},
-		funcs: map[*ssa.Function]bool{}, uniq: map[string]*Loc{}, hidden: map[*Loc]Value{}, backing: map[*Loc]backRef{}}
+		yieldBudget: 64, funcs: map[*ssa.Function]bool{}, uniq: map[string]*Loc{}, hidden: map[*Loc]Value{}, backing: map[*Loc]backRef{}}
 }
 
 func (g *Engine) runPath(s *Solver, fn *ssa.Function, cfg *HarnessCfg, prefix []uint64, pm map[string]uint64, wantSample bool, pin []uint64) *PathResult {
